@@ -2,6 +2,7 @@ import SlogModel.Lemmas.BufferCounters
 import SlogModel.Props.C03
 import SlogModel.Props.C09
 import SlogModel.Props.C06
+import SlogModel.Props.C02
 import SlogModel.Gen.Facts
 
 /-!
@@ -88,5 +89,82 @@ theorem C19_fact_metric_keys_separated : Facts.route_metric_merge_length_prefixe
 
 theorem C19_label_sets_distinct (a b : List Bytes) (h : Route.mergeKey a = Route.mergeKey b) : a = b :=
   C06.C06_merge_injective a b h
+
+
+/-! ### the forwarding client's counters (forwarded / acknowledged) over every run of `Client.step`
+
+`forwarded_chunks_total` is one per complete transmission (`Client.forwardedN` of the event history: counted when
+`SendChunk` has returned nil), `acknowledged_chunks_total` one per `OnChunkConsumed` (`Client.acknowledgedN`).  For every
+interleaving and fault script: the acknowledged counter is the number of chunks reported delivered, these are distinct
+chunks, each was counted as forwarded before (on the connection that carried its ACK), hence acknowledged ≤ forwarded; and the
+counters balance with the queue side: taken = acknowledged + handed back + still held.  The harness compares the real
+counters with these functions of the observed trace (`client tracem`) and with what the scripted upstream received. -/
+
+theorem sentOkOf_length : ∀ (h : List Client.Ev), (Client.sentOkOf h).length = Client.forwardedN h
+  | [] => rfl
+  | e :: r => by cases e <;> simp [Client.sentOkOf, Client.forwardedN, sentOkOf_length r]
+
+theorem mem_sentOkOf : ∀ (h : List Client.Ev) (k c : Nat), Client.Ev.sendOk k c ∈ h → c ∈ Client.sentOkOf h
+  | [], _, _, hm => by simp at hm
+  | e :: r, k, c, hm => by
+    simp only [List.mem_cons] at hm
+    rcases hm with rfl | hm
+    · simp [Client.sentOkOf]
+    · have := mem_sentOkOf r k c hm
+      cases e <;> simp [Client.sentOkOf, this]
+
+theorem length_le_of_nodup_subset : ∀ (l m : List Nat), l.Nodup → (∀ c ∈ l, c ∈ m) → l.length ≤ m.length
+  | [], _, _, _ => by simp
+  | x :: l, m, hn, hs => by
+    have hn' := List.nodup_cons.mp hn
+    have hx : x ∈ m := hs x (by simp)
+    have ih := length_le_of_nodup_subset l (m.erase x) hn'.2 (by
+      intro c hc
+      have hcm := hs c (by simp [hc])
+      have hne : c ≠ x := fun e => hn'.1 (e ▸ hc)
+      exact (List.mem_erase_of_ne hne).mpr hcm)
+    have := List.length_erase_of_mem hx
+    simp only [List.length_cons]
+    have hpos : 0 < m.length := List.length_pos_of_mem hx
+    omega
+
+/-- **C19 (acknowledged counter).** In every reachable state of the client the acknowledged counter equals the number of
+chunks reported delivered, and no chunk is among them twice. -/
+theorem C19_client_acknowledged_counts_confirmations (q : List Nat) (hq : q.Nodup) (acts : List Client.Act) (s : Client.St)
+    (h : Client.run (Client.init q) acts = some s) :
+    Client.acknowledgedN s.hist = s.confirmed.length ∧ s.confirmed.Nodup := by
+  have he := C02.run_evinv _ _ acts h (by simp [C02.EvInv, Client.init, Client.consumedOf, Client.leftoverOf])
+  refine ⟨by simp [Client.acknowledgedN, he.1], ?_⟩
+  have := (C02.C02_resolved_exactly_once q hq acts s h).2
+  rw [List.append_assoc] at this
+  exact (List.nodup_append.mp this).1
+
+/-- **C19 (every acknowledged chunk was counted as forwarded; acknowledged ≤ forwarded).** -/
+theorem C19_client_acknowledged_le_forwarded (q : List Nat) (hq : q.Nodup) (acts : List Client.Act) (s : Client.St)
+    (h : Client.run (Client.init q) acts = some s) :
+    (∀ c ∈ s.confirmed, c ∈ Client.sentOkOf s.hist) ∧ Client.acknowledgedN s.hist ≤ Client.forwardedN s.hist := by
+  have hj := C02.C02_confirmed_after_ack q acts s h
+  have hsub : ∀ c ∈ s.confirmed, c ∈ Client.sentOkOf s.hist := by
+    intro c hc
+    obtain ⟨pre, mid, post, k, id, heq, _⟩ := hj c hc
+    exact mem_sentOkOf s.hist k c (by rw [heq]; simp)
+  obtain ⟨h1, h2⟩ := C19_client_acknowledged_counts_confirmations q hq acts s h
+  refine ⟨hsub, ?_⟩
+  rw [h1, ← sentOkOf_length]
+  exact length_le_of_nodup_subset _ _ h2 hsub
+
+/-- **C19 (client side of the per-output balance).** taken from the queue = acknowledged + handed back + still held. -/
+theorem C19_client_balance (q : List Nat) (hq : q.Nodup) (acts : List Client.Act) (s : Client.St)
+    (h : Client.run (Client.init q) acts = some s) :
+    s.taken.length = Client.acknowledgedN s.hist + s.handed.length + (Client.inflight s).length := by
+  have hc := (C02.run_inv _ _ acts h (C02.init_inv q hq)).cons
+  obtain ⟨h1, _⟩ := C19_client_acknowledged_counts_confirmations q hq acts s h
+  have hperm : s.taken.Perm (s.confirmed ++ s.handed ++ Client.inflight s) := List.perm_iff_count.mpr hc
+  rw [h1, hperm.length_eq]; simp only [List.length_append]
+
+example : (Client.run (Client.init [1, 2, 3]) C02.demoActs).map (fun s => (Client.forwardedN s.hist, Client.acknowledgedN s.hist)) =
+    some (3, 1) := by
+  simp [C02.demoActs, Client.run, Client.step, Client.init, Client.newLeft, Client.dedupSorted, Client.ackCap, List.mergeSort,
+    List.MergeSort.Internal.splitInTwo, Client.forwardedN, Client.acknowledgedN, Client.consumedOf]
 
 end C19
